@@ -1,4 +1,108 @@
-(* C04 property theorems: statements only, each closed by `exact`, with Print Assumptions. *)
+(* C04 property theorems: statements only, each closed by `exact`, with Print Assumptions.
+   Everything is about the exact instance (NumQ) of coq/C04/Model.v + Base/Pivot.v.
+   Entries of A_ub, A_eq, b_ub, b_eq, c are read with `get`/`vget` (0 outside the arrays) both by the
+   model and by the specification, so the matrices need no shape hypotheses; b_ub, b_eq must have
+   exactly m and k entries (the code reads b_signs from them). *)
 From Coq Require Import List Bool Arith QArith.
-From QE Require Import Base.Num Base.Pivot C04.Model.
+From QE Require Import Base.Num Base.Pivot Base.PivotProofs C04.Model
+     C04.Proofs C04.Proofs2 C04.Proofs3 C04.Proofs4 C04.Proofs5 C04.Proofs6.
 Import ListNotations.
+Open Scope Q_scope.
+
+(* weak duality certificate, all dimensions: a primal feasible x and a dual feasible lambd (>= 0 on the
+   inequality rows, A' lambd >= c) with c.x = b.lambd are both optimal *)
+Theorem C04_certificate_optimal : forall n m k c Aub bub Aeq beq x lam,
+  primal_feasible n m k Aub bub Aeq beq x -> dual_feasible n m k c Aub Aeq lam ->
+  dotn n c x == dual_obj m k bub beq lam ->
+  (forall x', primal_feasible n m k Aub bub Aeq beq x' -> dotn n c x' <= dotn n c x) /\
+  (forall lam', dual_feasible n m k c Aub Aeq lam' -> dual_obj m k bub beq lam <= dual_obj m k bub beq lam').
+Proof. intros. split; [eapply certificate_optimal|eapply certificate_dual_optimal]; eauto. Qed.
+Print Assumptions C04_certificate_optimal.
+
+(* the initial tableau satisfies the self-certifying invariant and has a non-negative right-hand side *)
+Theorem C04_initial_tableau_inv : forall n m k Aub bub Aeq beq,
+  tab_inv (m + k) (n + m + (m + k) + 1) (n + m) (T0 n m k Aub bub Aeq beq) (obj1 n m k)
+          (fst (initialize_tableau n m k Aub bub Aeq beq)) (snd (initialize_tableau n m k Aub bub Aeq beq)) /\
+  rhs_nonneg (m + k) (n + m + (m + k) + 1) (fst (initialize_tableau n m k Aub bub Aeq beq)).
+Proof. exact init_inv. Qed.
+Print Assumptions C04_initial_tableau_inv.
+
+(* solve_tableau keeps the invariant (rows = aux-block combination of the initial rows, criterion row =
+   objective + combination, unit columns of the basic variables, solutions of the current rows solve the
+   initial rows) for every fuel, both phases, every tolerance with tol_piv >= 0 *)
+Theorem C04_solve_tableau_inv : forall L nc a T0 obj (o : @PivOptions Q) skip,
+  0 <= tol_piv o ->
+  forall fuel T basis ni,
+    tab_inv L nc a T0 obj T basis ->
+    let '(T', basis', _, _, _) := solve_tableau_loop fuel T basis skip o ni in
+    tab_inv L nc a T0 obj T' basis'.
+Proof. exact solve_tableau_inv. Qed.
+Print Assumptions C04_solve_tableau_inv.
+
+(* tolerance 0: the right-hand side stays non-negative (min-ratio test) *)
+Theorem C04_solve_tableau_rhs_nonneg : forall L nc a T0 obj skip fuel T basis ni,
+  tab_inv L nc a T0 obj T basis -> rhs_nonneg L nc T ->
+  let '(T', _, _, _, _) := solve_tableau_loop fuel T basis skip opts0 ni in
+  rhs_nonneg L nc T'.
+Proof. exact solve_tableau_rhs_nonneg. Qed.
+Print Assumptions C04_solve_tableau_rhs_nonneg.
+
+(* status 0 of linprog_simplex (tolerances 0, any max_iter): success, x primal feasible, lambd dual
+   feasible, c.x = fun = b.lambd *)
+Theorem C04_status0_certificate : forall c m k Aub bub Aeq beq max_iter x lam fn success ni,
+  length bub = m -> length beq = k ->
+  linprog_simplex c m k Aub bub Aeq beq max_iter opts0 = (x, lam, fn, success, 0%nat, ni) ->
+  let n := length c in
+  success = true /\
+  primal_feasible n m k Aub bub Aeq beq x /\
+  dual_feasible n m k c Aub Aeq lam /\
+  dotn n c x == fn /\ fn == dual_obj m k bub beq lam.
+Proof. exact status0_certificate. Qed.
+Print Assumptions C04_status0_certificate.
+
+(* hence x is an optimum *)
+Theorem C04_status0_optimal : forall c m k Aub bub Aeq beq max_iter x lam fn success ni,
+  length bub = m -> length beq = k ->
+  linprog_simplex c m k Aub bub Aeq beq max_iter opts0 = (x, lam, fn, success, 0%nat, ni) ->
+  let n := length c in
+  primal_feasible n m k Aub bub Aeq beq x /\
+  (forall x', primal_feasible n m k Aub bub Aeq beq x' -> dotn n c x' <= dotn n c x) /\
+  dotn n c x == fn.
+Proof. exact status0_optimal. Qed.
+Print Assumptions C04_status0_optimal.
+
+(* not proved (decided per case by the correspondence run + exact oracle only) *)
+Definition C04_status_iff_full : Prop :=
+  forall c m k Aub bub Aeq beq max_iter x lam fn success status ni,
+    length bub = m -> length beq = k ->
+    linprog_simplex c m k Aub bub Aeq beq max_iter opts0 = (x, lam, fn, success, status, ni) ->
+    let n := length c in
+    (status = 2%nat -> forall x', ~ primal_feasible n m k Aub bub Aeq beq x') /\
+    (status = 3%nat -> (exists x', primal_feasible n m k Aub bub Aeq beq x') /\
+                       forall B, exists x', primal_feasible n m k Aub bub Aeq beq x' /\ B < dotn n c x').
+Definition C04_minmax_certificate_full : Prop :=
+  forall m n A max_iter v x y,
+    (0 < m)%nat -> (0 < n)%nat -> minmax m n A max_iter opts0 = (v, x, y) -> (2 + m + n <= max_iter)%nat ->
+    (forall i, (i < m)%nat -> 0 <= vget x i) /\ sumQ m (vget x) == 1 /\
+    (forall j, (j < n)%nat -> 0 <= vget y j) /\ sumQ n (vget y) == 1 /\
+    (forall j, (j < n)%nat -> v <= sumQ m (fun i => vget x i * get A i j)) /\
+    (forall i, (i < m)%nat -> sumQ n (fun j => get A i j * vget y j) <= v).
+
+(* the hypotheses are satisfiable by non-trivial objects: an LP with a negative right-hand side and an
+   equality row on which the model ends with status 0 *)
+Example ex_status0_instance :
+  linprog_simplex [2; 1] 2 1 [[1; 1]; [-1; 0]] [4; -1] [[1; -1]] [-1] 100 opts0
+  = ([3 # 2; 5 # 2], [3 # 2; 0; 1 # 2], 11 # 2, true, 0%nat, 5%nat).
+Proof. vm_compute. reflexivity. Qed.
+Example ex_tab_inv_instance :
+  exists T basis, tab_inv 2 7 4 (T0 2 2 0 [[1; 1]; [-1; 0]] [4; -1] [] []) (obj1 2 2 0) T basis /\ rhs_nonneg 2 7 T.
+Proof. eexists. eexists. exact (init_inv 2 2 0 [[1; 1]; [-1; 0]] [4; -1] [] []). Qed.
+Example ex_certificate_instance :
+  primal_feasible 2 2 0 [[1; 1]; [-1; 0]] [4; -1] [] [] [4; 0] /\
+  dual_feasible 2 2 0 [2; 1] [[1; 1]; [-1; 0]] [] [2; 0] /\
+  dotn 2 [2; 1] [4; 0] == dual_obj 2 0 [4; -1] [] [2; 0].
+Proof.
+  pose proof (status0_certificate [2; 1] 2 0 [[1; 1]; [-1; 0]] [4; -1] [] [] 100 [4; 0] [2; 0] 8 true 5
+                eq_refl eq_refl ltac:(vm_compute; reflexivity)) as (_ & Hp & Hd & E1 & E2).
+  split; [exact Hp|split; [exact Hd|]]. rewrite E1. exact E2.
+Qed.
